@@ -113,6 +113,7 @@ impl<'a, N: Normalizer> Html5Serializer<'a, N> {
         };
         let is_inline = |name_id| self.html5_elements.is_inline(self.xot, name_id);
         let mut pretty = Pretty::new(self.xot, is_suppressed, is_inline);
+        pretty.seed_context(self.top);
         for (node, output) in outputs {
             let (indentation, newline) = pretty.prettify(node, &output);
             if indentation > 0 {
